@@ -149,7 +149,7 @@ fn raw_builder(ty: u64, rows: usize, cols: usize) -> Builder<Vec<u8>> {
     if (rows, cols) == (drows(), dcols()) {
         Builder::new_type(Vec::new(), ty).unwrap()
     } else {
-        Builder::verif_new_type_with_cache(Vec::new(), ty, rows, cols).unwrap()
+        crate::hooks::builder_with_cache(Vec::new(), ty, rows, cols)
     }
 }
 
@@ -202,10 +202,10 @@ pub fn exec_build(sem: &str, fe: &str, ty: u64, rows: usize, cols: usize, ops: &
                 results.push(fmt_res(&r));
                 bw.push_str(&format!("{},", b.bytes_written()));
             }
-            let h = b.verif_cache_stats_handle();
+            let h = crate::hooks::stats_handle(&b);
             let bytes = b.into_inner().ok();
-            let st = read_stats(&h);
-            BuildOut { results, bytes, bw, stats: Some(st) }
+            let st = h.as_ref().map(read_stats);
+            BuildOut { results, bytes, bw, stats: st }
         }
         ("calls", "map") => {
             assert!(all_insert);
@@ -257,9 +257,9 @@ pub fn exec_build(sem: &str, fe: &str, ty: u64, rows: usize, cols: usize, ops: &
                 }
             }
             let bw = format!("{}", b.bytes_written());
-            let h = b.verif_cache_stats_handle();
+            let h = crate::hooks::stats_handle(&b);
             let bytes = b.into_inner().ok();
-            BuildOut { results: vec![fmt_res(&r)], bytes, bw, stats: Some(read_stats(&h)) }
+            BuildOut { results: vec![fmt_res(&r)], bytes, bw, stats: h.as_ref().map(read_stats) }
         }
         ("extend", "map_iter") => {
             assert!(all_insert);
